@@ -1163,3 +1163,23 @@ Proof.
   - apply String.eqb_eq in E. inversion H; subst. left; reflexivity.
   - right. auto.
 Qed.
+
+(* ---- the data a module hands to its templates ------------------------------------------------- *)
+
+(* Whatever was notified before, the record built for a notification carries exactly the configured extras and the
+   values of that notification: cluster, group, the incident's id and start time, the reply. *)
+Theorem module_data_offers_configured : forall {R} extras sent (l : list (notification R)),
+  run_notifications (mkMstate extras sent) l = map (notify_data extras) l.
+Proof.
+  intros R extras sent l. revert sent. induction l as [|n r IH]; intros sent; simpl; [reflexivity|].
+  rewrite IH. reflexivity.
+Qed.
+
+Corollary module_data_fields : forall {R} extras sent (l : list (notification R)) k n d,
+  nth_error l k = Some n -> nth_error (run_notifications (mkMstate extras sent) l) k = Some d ->
+  td_cluster d = nt_cluster n /\ td_group d = nt_group n /\ td_id d = inc_id (nt_incident n) /\
+  td_start d = inc_start (nt_incident n) /\ td_extras d = extras /\ td_result d = nt_status n.
+Proof.
+  intros R extras sent l k n d Hn Hd. rewrite module_data_offers_configured in Hd.
+  rewrite nth_error_map, Hn in Hd. simpl in Hd. inversion Hd; subst d. unfold notify_data. simpl. auto 10.
+Qed.
